@@ -61,6 +61,14 @@ CLAIMED = {
              "the victim is delivered as one non-RTCM message with exactly its bytes and every other segment exactly as before.",
         note="as C03.",
         ref="DESIGN.md section 6, C12"),
+    "C13": dict(
+        text="The real Handle runs on a real bufio.Reader (interpreted from source, so the reader's buffering is explored) over a scripted reader whose every call is, nondeterministically, a chunk of symbolic bytes (possibly after a pause longer than the tolerance), nothing, EOF, an i/o timeout or another error, with the real framing goroutine running under the engine's scheduler: what reaches the message channel is byte for byte what the script supplied, no message is empty, the output is closed, another read error stops the run at once, zero tolerance stops at the first interruption, and with a tolerance a single interruption never ends the run.",
+        note="clock: time advances by sleeps and declared pauses plus a bounded jitter (stated bound); schedules: lazy and round-robin switching at synchronisation operations; 3 (thorough 4) reader calls.",
+        ref="DESIGN.md section 6, C13"),
+    "C18": dict(
+        text="Bounded histories (capacities 1..4, thorough 1..8; up to capacity+3 additions; symbolic messages; both map iteration orders) give exactly the last min(N,n) messages in order and never more than N; one addition from an arbitrary valid state with a symbolic next index keeps the invariant and shifts the contents by one (covers long runs far beyond the capacity); a lock-set monitor shows every access to the queue state inside Add/GetMessages holds the right lock and the lock is free on return.",
+        note="the concurrent clause is covered through the lock discipline (sequential consistency under the lock), confirmed natively by the race detector on a stress run; index values >= 2^62 are outside the claim.",
+        ref="DESIGN.md section 6, C18"),
     "C14": dict(
         text="For every width 1..64 (signed 2..64) and every bit position 0..15 (thorough: 0..135) the solver shows, over ALL "
              "buffer contents, that unsigned/signed extraction returns exactly the addressed bits, reads no byte past the "
